@@ -327,7 +327,8 @@ def collect(cfg, shard_outs):
                         agg["samples"].append(line.split("\t", 1)[1][:1500])
                 elif line.startswith("!FAIL\t"):
                     parts = line.split("\t")
-                    agg["fail"].append({"id": parts[1], "signature": unesc(parts[2]), "detail": unesc(parts[3]) if len(parts) > 3 else ""})
+                    agg["fail"].append({"id": parts[1], "signature": unesc(parts[2]), "detail": unesc(parts[3]) if len(parts) > 3 else "",
+                                        "shard_lines": lines})
                 elif line.startswith("!NOTE\t"):
                     pass
                 else:
@@ -364,6 +365,9 @@ def collect(cfg, shard_outs):
                         agg["bad"].append(rec)
             if seen != len(lines):
                 agg["infra"].append("driver answered %d of %d cases" % (seen, len(lines)))
+    for rec in agg["fail"]:
+        # attach the case line (the harness writes the case before or after its !FAIL line)
+        rec["case"] = rec.pop("shard_lines", {}).get(rec["id"], "")
     if not agg["samples"]:
         for so in shard_outs:
             if so["harness_rc"] == 0:
@@ -410,7 +414,7 @@ def fingerprint(path):
 
 
 def write_replay(pid, tier, content):
-    d = os.path.join(VERIF, "replays", pid)
+    d = os.path.join(VERIF, "replays", pid) if REPO == "/repo" else os.path.join(VERIF, "replays", repo_tag(), pid)
     os.makedirs(d, exist_ok=True)
     path = os.path.join(d, "%s-%s.txt" % (tier, hashlib.sha1(content.encode()).hexdigest()[:12]))
     with open(path, "w") as f:
@@ -586,14 +590,23 @@ def write_evidence(pid, tier, seed, cfg, theorems, tables, checker_cmd, agg, bro
         "wall_s": round(time.time() - t_start, 2),
         "violations": violations,
     }
-    os.makedirs(os.path.join(VERIF, "evidence"), exist_ok=True)
-    with open(os.path.join(VERIF, "evidence", pid + ".json"), "w") as f:
+    # evidence/ is only written for the real repository; runs against scratch copies go to .cache
+    evdir = os.path.join(VERIF, "evidence") if REPO == "/repo" else os.path.join(CACHE, "evidence-" + repo_tag())
+    os.makedirs(evdir, exist_ok=True)
+    with open(os.path.join(evdir, pid + ".json"), "w") as f:
         json.dump(ev, f, indent=1, sort_keys=True)
         f.write("\n")
 
 
 def setup():
     t0 = time.time()
+    # regenerate every generated table first: modules import them
+    for name in sorted(os.listdir(os.path.join(VERIF, "checks"))):
+        if re.match(r"C\d+\.json$", name):
+            ok, _ = run_translators(load_cfg(name[:-5]), [])
+            if not ok:
+                print("translator failed for", name)
+                return 1
     with Lock("lake"):
         rc, out = sh(["lake", "build"], cwd=LEAN)
     print(out[-3000:])
@@ -607,7 +620,6 @@ def setup():
                 drivers.append(cfg["driver"])
             if cfg.get("harness_bin"):
                 bins += [cfg["harness_bin"]] + cfg.get("extra_bins", [])
-            run_translators(cfg, [])
     with Lock("lake"):
         rc, out = sh(["lake", "build"] + sorted(set(drivers)), cwd=LEAN)
     print(out[-3000:])
